@@ -261,7 +261,16 @@ fn check_raw(raw: &Raw) -> Outcome {
         }
     };
     match vcore::runner::catch(|| parse_packet(&bytes, from())) {
-        Err(p) => Outcome::fail("C55:parser-panicked", json!({"panic": p, "len": bytes.len()})),
+        Err(p) => {
+            // overflow-check panic inside the DNS parser dependency (error-message arithmetic of the TSIG rdata reader):
+            // a known finding with its own signature, so that any other parser panic is still reported
+            let sig = if p.contains("hickory-proto") && p.contains("rdata/tsig.rs") && p.contains("attempt to subtract with overflow") {
+                "C55:parser-panicked-in-hickory-proto-tsig-rdata-overflow-check"
+            } else {
+                "C55:parser-panicked"
+            };
+            Outcome::fail(sig, json!({"panic": p, "len": bytes.len()}))
+        }
         Ok(r) => {
             let mut labels = vec![];
             let nt = match &r {
